@@ -19,10 +19,33 @@ Verdict14(ev) ==
     IF ev.perr = 2 THEN "printer-panics"
     ELSE IF ev.perr = 1 THEN "does-not-parse"
     ELSE IF ev.s2 # ev.s1 THEN "prints-differently"
-    ELSE IF ev.eo # ev.er THEN "evaluates-differently"
+    \* ALLOW: when the re-parsed expression is structurally identical to the original (a Go fact: reflect.DeepEqual),
+    \* a different result is not caused by the text form (Expr.Get on several descents depends on map order: C05)
+    ELSE IF ev.eo # ev.er /\ ~ev.same THEN "evaluates-differently"
     ELSE IF ev.k = "eq" /\ ev.mo = 2 THEN "panic"
     ELSE IF ev.k = "eq" /\ ((ModelSays(ev) = "T" /\ ev.mo = 0) \/ (ModelSays(ev) = "F" /\ ev.mo = 1)) THEN "model-differs"
     ELSE "ok"
+\* ---- locus of a path case: the fragment kinds of the (shrunk) expression, keys by byte class
+Alnum(b) == (48 <= b /\ b <= 57) \/ (65 <= b /\ b <= 90) \/ (97 <= b /\ b <= 122) \/ b = 95
+KeyClass(k) == IF Len(k) = 0 THEN "empty"
+               ELSE IF \E i \in 1..Len(k) : k[i] = 39 THEN "quote"
+               ELSE IF \E i \in 1..Len(k) : k[i] = 92 THEN "backslash"
+               ELSE IF \E i \in 1..Len(k) : k[i] < 32 \/ k[i] = 127 THEN "control"
+               ELSE IF \E i \in 1..Len(k) : k[i] >= 128 THEN "nonascii"
+               ELSE IF \A i \in 1..Len(k) : Alnum(k[i]) THEN (IF 48 <= k[1] /\ k[1] <= 57 THEN "digits" ELSE "plain")
+               ELSE "punct"
+UnionClass(u) == IF Len(u) = 0 THEN "empty" ELSE IF Len(u) = 1 THEN "single"
+                 ELSE LET odd == {i \in 1..Len(u) : u[i].is /\ KeyClass(u[i].k) # "plain"} IN
+                      IF odd = {} THEN "plain" ELSE "key " \o KeyClass(u[MinOf(odd)].k)
+FragName(f) == CASE f.f = "child" -> "child(" \o KeyClass(f.k) \o ")"
+                 [] f.f = "nth" -> IF f.i < 0 THEN "nth(neg)" ELSE "nth"
+                 [] f.f = "union" -> "union(" \o UnionClass(f.u) \o ")"
+                 [] f.f = "slice" -> "slice(" \o ToString(Len(f.s)) \o ")"
+                 [] OTHER -> f.f
+RECURSIVE JoinNames(_)
+JoinNames(fr) == IF Len(fr) = 0 THEN "" ELSE " " \o FragName(Head(fr)) \o JoinNames(Tail(fr))
+PathLocus(cs) == (IF cs.root = "" THEN "rel" ELSE cs.root) \o JoinNames(cs.fr)
+
 \* the (parent op, child ops) triple of an equation
 OpOf(e) == IF e.op \in {"const", "path"} THEN "leaf" ELSE e.op
 Triple(e) == IF e.op \in {"const", "path"} THEN <<"leaf", "-", "-">>
@@ -35,6 +58,7 @@ RoundTrip == /\ c <= N
                 /\ (v = "ok" \/ Len(TLCGet(1)) >= MaxBad
                     \/ TLCSet(1, Append(TLCGet(1), [i |-> c, kind |-> v, form |-> ev.form, cell |-> ev.cell,
                                                      tri |-> IF ev.k = "eq" THEN Triple(ev.ast) ELSE <<"-", "-", "-">>,
+                                                     ploc |-> IF ev.k = "path" THEN PathLocus(ev.case) ELSE "-",
                                                      model |-> ModelSays(ev)])))
                 /\ (v = "ok" \/ TLCSet(3, TLCGet(3) + 1))
                 /\ TLCSet(4, TLCGet(4) \cup {ev.cell})
